@@ -17,10 +17,12 @@ structure NumSpec where
   comma : Bool
   decimalPoint : Option Nat      -- options['decimal_point'] (= `sharps` counter when '.' was seen)
   realSharps : Nat
+  decimalsN : Nat                -- options['decimals']: the '#' positions after the point
   deriving Repr, DecidableEq
 
-/-- number of decimals asked of `format`: `len(fmt) - options['decimal_point']` -/
-def NumSpec.decimals (s : NumSpec) : Option Nat := s.decimalPoint.map (s.width - ·)
+/-- number of decimals asked of `format`: the digit positions after the point (as repaired: `len(fmt) - decimal_point`
+    counted a trailing sign as a decimal) -/
+def NumSpec.decimals (s : NumSpec) : Option Nat := s.decimalPoint.map (fun _ => s.decimalsN)
 
 /-- the `while` loop of parse_numeric_format_string; `sign` = a leading sign was seen -/
 def numLoop (sign : Bool) (sp : NumSpec) : Str → NumSpec × Str
@@ -28,7 +30,9 @@ def numLoop (sign : Bool) (sp : NumSpec) : Str → NumSpec × Str
   | c :: r =>
     if !sign && (c = '+' || c = '-') then
       ({ sp with signEnd := true, signChar := some c, width := sp.width + 1 }, r)
-    else if c = '#' then numLoop sign { sp with width := sp.width + 1, realSharps := sp.realSharps + 1 } r
+    else if c = '#' then
+      numLoop sign { sp with width := sp.width + 1, realSharps := sp.realSharps + 1,
+                             decimalsN := if sp.decimalPoint.isSome then sp.decimalsN + 1 else sp.decimalsN } r
     else if c = ',' then numLoop sign { sp with comma := true, width := sp.width + 1 } r
     else if c = '.' then
       if sp.decimalPoint.isSome then (sp, c :: r)
@@ -36,7 +40,7 @@ def numLoop (sign : Bool) (sp : NumSpec) : Str → NumSpec × Str
     else (sp, c :: r)
 
 def emptySpec : NumSpec :=
-  { width := 0, signEnd := false, signChar := none, comma := false, decimalPoint := none, realSharps := 0 }
+  { width := 0, signEnd := false, signChar := none, comma := false, decimalPoint := none, realSharps := 0, decimalsN := 0 }
 
 /-- parse_numeric_format_string at the head of `s`: the field and the unconsumed rest -/
 def parseNumeric : Str → NumSpec × Str
@@ -63,16 +67,20 @@ def ScanRes.prepend (ps : List Part) : ScanRes → ScanRes
   | .ok qs => .ok (ps ++ qs)
   | r => r
 
-/-- parse_format_string.  `lit` = the numeric-field test is switched off for the first character
-    (after a numeric field was consumed, or `redo_no_number`) -/
+/-- a field may begin with its decimal point (as repaired) -/
+def startsField (c : Char) (r : Str) : Bool :=
+  c = '#' || c = '+' || c = '-' || (c = '.' && r.head? = some '#')
+
+/-- parse_format_string.  `lit` = the numeric-field test is switched off for the first character (`redo_no_number`; as
+    repaired, NOT after a numeric field: the next character may start a field of its own) -/
 def scan : Nat → Bool → Str → Str → ScanRes
   | 0, _, _, _ => .fuel
   | _ + 1, _, [], non => .ok (flush non)
   | f + 1, lit, c :: r, non =>
-    if !lit && (c = '#' || c = '+' || c = '-') then
+    if !lit && startsField c r then
       let (sp, rest) := parseNumeric (c :: r)
       if sp.realSharps = 0 then (scan f true (c :: r) []).prepend (flush non)
-      else (scan f true rest []).prepend (flush non ++ [.num sp])
+      else (scan f false rest []).prepend (flush non ++ [.num sp])
     else if c = '&' || c = '!' then (scan f false r []).prepend (flush non ++ [.str c])
     else if c = '_' then
       match r with
@@ -84,17 +92,28 @@ def scanFmt (fmt : Str) : ScanRes := scan (2 * fmt.length + 2) false fmt []
 
 /-! ### rendering one numeric field -/
 
-/-- format_number after `result = fmt_str.format(abs(value))`: `body` is that text, `neg` is `value < 0` -/
-def renderNum (sp : NumSpec) (neg : Bool) (body : Str) : Str :=
+/-- the decimal point at the edge of a field (as repaired): "##." shows the point, ".##" has no digit position before it -/
+def adjustPoint (sp : NumSpec) (body : Str) : Str :=
+  if sp.decimalPoint.isSome then
+    if sp.decimalsN = 0 then body ++ ['.']
+    else if sp.realSharps = sp.decimalsN && body.take 2 = ['0', '.'] then body.drop 1
+    else body
+  else body
+
+/-- format_number after the number text is ready: `body` is that text, `neg` is `value < 0`.
+    (As repaired: a trailing-sign field puts nothing in front of the digits.) -/
+def renderCore (sp : NumSpec) (neg : Bool) (body : Str) : Str :=
   let plusType := sp.signChar = some '+'
   let sign : Char := if neg then '-' else if plusType then '+' else ' '
-  let r0 : Str := if !sp.signEnd then sign :: body
-                  else (if sign ≠ '-' then ' ' :: (body ++ [sign]) else body ++ [sign])
+  let r0 : Str := if !sp.signEnd then sign :: body else body ++ [sign]
   let r1 : Str := if r0.length < sp.width then blanks (sp.width - r0.length) ++ r0 else r0
   let r2 : Str := if sign = ' ' && r1.length > sp.width && !sp.signEnd then r1.drop 1
                   else if sign = ' ' && r1.length > sp.width && sp.signEnd then r1.dropLast
                   else r1
   if r2.length > sp.width then '%' :: r2 else r2
+
+/-- format_number after `result = fmt_str.format(abs(value))`: `body` is that text (Python's `format`, external) -/
+def renderNum (sp : NumSpec) (neg : Bool) (body : Str) : Str := renderCore sp neg (adjustPoint sp body)
 
 /-! ### the whole statement -/
 
